@@ -237,7 +237,7 @@ class Ev(object):
 
 class St(object):
     __slots__ = ('frames', 'heap', 'conds', 'events', 'held', 'loops',
-                 'outcome', 'try_depth', 'notes', 'cond_held')
+                 'outcome', 'try_depth', 'notes', 'cond_held', 'yielders')
 
     def __init__(self):
         self.frames = [{}]
@@ -250,6 +250,7 @@ class St(object):
         self.try_depth = 0
         self.notes = []
         self.cond_held = []     # locks held when each decision was taken
+        self.yielders = []      # for-loops consuming generators being run
 
     @property
     def env(self):
@@ -267,6 +268,7 @@ class St(object):
         s.try_depth = self.try_depth
         s.notes = list(self.notes)
         s.cond_held = list(self.cond_held)
+        s.yielders = list(self.yielders)
         return s
 
 
@@ -434,9 +436,15 @@ class PathSum(object):
             if isinstance(n.value, (ast.Yield, ast.YieldFrom)):
                 v = n.value.value
                 outs = self.ev(v, st, fi) if v is not None else [(st, NONE)]
+                res = []
                 for s, t in outs:
+                    if s.outcome is None and s.yielders and isinstance(
+                            n.value, ast.Yield):
+                        res.extend(self.yield_to(t, s))
+                        continue
                     self.emit(s, Ev('yield', n, fi, s, value=t))
-                return [s for s, _ in outs]
+                    res.append(s)
+                return res
             return [s for s, _ in self.ev(n.value, st, fi)]
         if isinstance(n, ast.Assign):
             out = []
@@ -567,6 +575,58 @@ class PathSum(object):
             return [st]
         raise self.err('unsupported statement %s' % type(n).__name__, n, fi)
 
+    def yield_to(self, value, st):
+        """The generator being run yields `value`: the body of the loop
+        that consumes it runs now, in the consumer's frame."""
+        h = st.yielders[-1]
+        n, cfi, idx = h['node'], h['fi'], h['frame']
+        saved_frames = st.frames[idx + 1:]
+        saved_y = st.yielders
+        st.frames = st.frames[:idx + 1]
+        st.yielders = st.yielders[:-1]
+        outs = []
+        for s2 in self.assign(n.target, value, st, cfi, n):
+            outs.extend(self.block(n.body, [s2], cfi))
+        res = []
+        for o in outs:
+            o.frames = o.frames[:idx + 1] + [dict(f) for f in saved_frames]
+            o.yielders = list(saved_y)
+            oc = o.outcome
+            if oc is None or oc[0] == 'continue':
+                o.outcome = None
+            elif oc[0] == 'break':
+                o.outcome = ('genbreak', id(n))
+            elif oc[0] in ('return', 'raise'):
+                o.outcome = ('genleave', id(n), oc)
+            res.append(o)
+        return res
+
+    def iterate_generator(self, n, st, gen, fi):
+        """for <target> in <generator object>: run the generator's body;
+        each yield runs the loop body (see yield_to)."""
+        target, args, kwargs = gen[1], list(gen[2]), dict(gen[3])
+        st.yielders.append(dict(node=n, fi=fi, frame=len(st.frames) - 1))
+        res = self.invoke(target, args, kwargs, st, fi, n)
+        out = []
+        for s2, _ in res:
+            if s2.yielders and s2.yielders[-1]['node'] is n:
+                s2.yielders.pop()
+            oc = s2.outcome
+            if oc is not None and oc[0] == 'genbreak' and oc[1] == id(n):
+                s2.outcome = None
+                out.append(s2)
+            elif oc is not None and oc[0] == 'genleave' and oc[1] == id(n):
+                s2.outcome = oc[2]
+                out.append(s2)
+            elif oc is None:
+                if n.orelse:
+                    out.extend(self.block(n.orelse, [s2], fi))
+                else:
+                    out.append(s2)
+            else:
+                out.append(s2)
+        return out
+
     @staticmethod
     def _as_load(t):
         import copy
@@ -596,6 +656,8 @@ class PathSum(object):
             return [st]
         if isinstance(t, (ast.Tuple, ast.List)):
             items = None
+            if v[0] == 'nt':
+                v = ('tuple', v[2])
             if v[0] in ('tuple', 'list') and len(v[1]) == len(t.elts):
                 items = v[1]
             elif is_const(v) and isinstance(v[1], tuple) and \
@@ -1386,6 +1448,8 @@ class PathSum(object):
     def index(self, b, k):
         if b is BOT or k is BOT:
             return BOT
+        if b[0] == 'nt':
+            b = ('tuple', b[2])
         if b[0] in ('tuple', 'list') and is_const(k) and isinstance(
                 k[1], int) and -len(b[1]) <= k[1] < len(b[1]):
             return b[1][k[1]]
@@ -1618,6 +1682,8 @@ class PathSum(object):
         return None
 
     def getattr(self, b, attr, st, fi, node):
+        if b[0] == 'nt' and attr in b[1]:
+            return [(st, b[2][b[1].index(attr)])]
         key = (b, attr)
         if key in st.heap:
             v = st.heap[key]
@@ -1697,6 +1763,9 @@ class PathSum(object):
                 and isinstance(f.value.func, ast.Name) and \
                 f.value.func.id == 'super':
             return self.super_call(e, st, fi)
+        lazy = self.lazy_consumer(e, st, fi)
+        if lazy is not None:
+            return lazy
         exprs = [f] + [a.value if isinstance(a, ast.Starred) else a
                        for a in e.args] + [k.value for k in e.keywords]
         out = []
@@ -1707,8 +1776,17 @@ class PathSum(object):
             fn = items[0]
             args = []
             for a, t in zip(e.args, items[1:1 + len(e.args)]):
-                args.append(op('star', t) if isinstance(a, ast.Starred)
-                            else t)
+                if isinstance(a, ast.Starred):
+                    if t[0] in ('tuple', 'list'):
+                        args.extend(t[1])       # f(*(a, b)) is f(a, b)
+                    elif t[0] == 'nt':
+                        args.extend(t[2])
+                    elif is_const(t) and isinstance(t[1], tuple):
+                        args.extend(const(x) for x in t[1])
+                    else:
+                        args.append(op('star', t))
+                else:
+                    args.append(t)
             kwargs = []
             for k, t in zip(e.keywords, items[1 + len(e.args):]):
                 if k.arg is None and t[0] == 'dict' and all(
@@ -1718,6 +1796,95 @@ class PathSum(object):
                 else:
                     kwargs.append((k.arg if k.arg is not None else '**', t))
             out.extend(self.apply(fn, args, dict(kwargs), s, fi, e))
+        return out
+
+    def lazy_consumer(self, e, st, fi):
+        """next(<genexp>[, default]) / any(<genexp>) / all(<genexp>) over a
+        literal sequence: the generator is lazy, so the items are tried in
+        order and evaluation stops at the first hit.  None: not that shape
+        (handled as an ordinary call)."""
+        f = e.func
+        if not (isinstance(f, ast.Name) and f.id in ('next', 'any', 'all')
+                and f.id not in st.env and e.args and not e.keywords
+                and isinstance(e.args[0], ast.GeneratorExp)
+                and len(e.args[0].generators) == 1):
+            return None
+        g = e.args[0].generators[0]
+        gen = e.args[0]
+        out = []
+        for s, it in self.ev(g.iter, st, fi):
+            if s.outcome is not None:
+                out.append((s, BOT))
+                continue
+            items = None
+            if it[0] in ('tuple', 'list') and len(it[1]) <= 3 * self.unroll:
+                items = list(it[1])
+            elif it[0] == 'dict' and False:
+                items = None
+            if items is None:
+                return None if len(out) == 0 else out + \
+                    self._plain_call(e, s, fi)
+            saved = {x.id: s.env.get(x.id) for x in ast.walk(g.target)
+                     if isinstance(x, ast.Name)}
+            live = [s]
+            done = []
+            for item in items:
+                nx = []
+                for l in live:
+                    for l2 in self.assign(g.target, item, l, fi, e):
+                        cands = [(l2, True)]
+                        for c in g.ifs:
+                            c2 = []
+                            for l3, ok in cands:
+                                if not ok or l3.outcome is not None:
+                                    c2.append((l3, ok))
+                                    continue
+                                c2.extend(self.branch(c, l3, fi))
+                            cands = c2
+                        for l3, ok in cands:
+                            if l3.outcome is not None:
+                                done.append((l3, BOT))
+                            elif not ok:
+                                nx.append(l3)
+                            elif f.id == 'next':
+                                done.extend(self.ev(gen.elt, l3, fi))
+                            else:
+                                for l4, tr in self.branch(gen.elt, l3, fi):
+                                    if l4.outcome is not None:
+                                        done.append((l4, BOT))
+                                    elif tr == (f.id == 'any'):
+                                        done.append((l4, const(tr)))
+                                    else:
+                                        nx.append(l4)
+                live = nx
+            for l in live:
+                if f.id == 'next':
+                    if len(e.args) > 1:
+                        done.extend(self.ev(e.args[1], l, fi))
+                    else:
+                        l.outcome = ('raise', ('call', ('builtin',
+                                                        'StopIteration'),
+                                               (), (), next(self.uid)), e)
+                        done.append((l, BOT))
+                else:
+                    done.append((l, const(f.id == 'all')))
+            for l, v in done:
+                for nm, old in saved.items():
+                    if old is None:
+                        l.env.pop(nm, None)
+                    else:
+                        l.env[nm] = old
+            out.extend(done)
+        return out
+
+    def _plain_call(self, e, st, fi):
+        exprs = [e.func] + list(e.args)
+        out = []
+        for s, items in self.ev_list(exprs, st, fi):
+            if s.outcome is not None:
+                out.append((s, BOT))
+                continue
+            out.extend(self.apply(items[0], items[1:], {}, s, fi, e))
         return out
 
     def super_call(self, e, st, fi):
@@ -1763,9 +1930,195 @@ class PathSum(object):
                                             [target] if target else []))
         return out
 
+    OPERATOR_BIN = {
+        'add': 'Add', 'iadd': 'Add', 'sub': 'Sub', 'isub': 'Sub',
+        'mul': 'Mult', 'imul': 'Mult', 'or_': 'BitOr', 'ior': 'BitOr',
+        'and_': 'BitAnd', 'iand': 'BitAnd', 'xor': 'BitXor',
+        'ixor': 'BitXor', 'mod': 'Mod', 'imod': 'Mod', 'lshift': 'LShift',
+        'ilshift': 'LShift', 'rshift': 'RShift', 'irshift': 'RShift',
+        'floordiv': 'FloorDiv', 'ifloordiv': 'FloorDiv', 'truediv': 'Div',
+        'itruediv': 'Div', 'pow': 'Pow'}
+    OPERATOR_CMP = {'eq': '==', 'ne': '!=', 'lt': '<', 'le': '<=',
+                    'gt': '>', 'ge': '>=', 'is_': 'is', 'is_not': 'isnot'}
+
+    def library_call(self, name, fn, args, kwargs, st, fi, node):
+        """functools / operator / collections helpers with exact, pure
+        semantics; None = not modelled."""
+        if name == 'functools.partial' and args:
+            return [(st, ('partial', args[0], tuple(args[1:]),
+                          tuple(sorted(kwargs.items()))))]
+        if name.startswith('operator.'):
+            o = name.split('.', 1)[1]
+            if o in self.OPERATOR_BIN and len(args) == 2 and not kwargs:
+                return [(st, self.binop(self.OPERATOR_BIN[o], args[0],
+                                        args[1]))]
+            if o in self.OPERATOR_CMP and len(args) == 2 and not kwargs:
+                return [(st, op(self.OPERATOR_CMP[o], args[0], args[1]))]
+            if o == 'not_' and len(args) == 1:
+                return [(st, op('not', args[0]))]
+            if o == 'truth' and len(args) == 1:
+                return [(st, op('bool', args[0]))]
+            if o == 'neg' and len(args) == 1:
+                return [(st, op('usub', args[0]))]
+            if o == 'contains' and len(args) == 2:
+                return [(st, op('in', args[1], args[0]))]
+            if o == 'getitem' and len(args) == 2:
+                if self._table_lookup(args[0], args[1]):
+                    out = []
+                    for s2, v in self.lookup(args[0], args[1], st, node):
+                        if v is None:
+                            s2.outcome = ('raise', ('call', (
+                                'builtin', 'KeyError'), (args[1],), (),
+                                next(self.uid)), node)
+                            out.append((s2, BOT))
+                        else:
+                            out.append((s2, v))
+                    return out
+                return [(st, self.index(args[0], args[1]))]
+            if o in ('attrgetter', 'itemgetter') and args and all(
+                    is_const(a) for a in args):
+                return [(st, (o, tuple(a[1] for a in args)))]
+            if o == 'methodcaller' and args and is_const(args[0]):
+                return [(st, ('methodcaller', args[0][1], tuple(args[1:]),
+                              tuple(sorted(kwargs.items()))))]
+        if name == 'functools.reduce' and len(args) in (2, 3):
+            seq = args[1]
+            if seq[0] == 'op' and seq[1] == 'reversed' and \
+                    seq[2][0][0] in ('tuple', 'list'):
+                seq = (seq[2][0][0], tuple(reversed(seq[2][0][1])))
+            if is_const(seq) and isinstance(seq[1], (tuple, str)):
+                seq = ('tuple', tuple(const(x) for x in seq[1]))
+            if seq[0] in ('tuple', 'list') and len(seq[1]) <= 3 * self.unroll:
+                items = list(seq[1])
+                if len(args) == 3:
+                    acc = [(st, args[2])]
+                elif items:
+                    acc = [(st, items.pop(0))]
+                else:
+                    return None
+                for item in items:
+                    nx = []
+                    for s2, a in acc:
+                        if s2.outcome is not None:
+                            nx.append((s2, BOT))
+                            continue
+                        nx.extend(self.apply(args[0], [a, item], {}, s2, fi,
+                                             node))
+                    acc = nx
+                return acc
+        if name == 'collections.namedtuple' and len(args) >= 2 and \
+                is_const(args[0]):
+            f = args[1]
+            names = None
+            if is_const(f) and isinstance(f[1], str):
+                names = tuple(f[1].replace(',', ' ').split())
+            elif f[0] in ('tuple', 'list') and all(is_const(x)
+                                                   for x in f[1]):
+                names = tuple(x[1] for x in f[1])
+            if names is not None:
+                return [(st, ('ntcls', args[0][1], names))]
+        if name in ('itertools.chain.from_iterable',) and len(args) == 1 \
+                and args[0][0] in ('tuple', 'list') and all(
+                    x[0] in ('tuple', 'list') for x in args[0][1]):
+            flat = []
+            for x in args[0][1]:
+                flat.extend(x[1])
+            return [(st, ('tuple', tuple(flat)))]
+        return None
+
+    def _is_generator(self, fi):
+        cache = self.__dict__.setdefault('_isgen', {})
+        if fi not in cache:
+            body = fi.node.body if not isinstance(fi.node, ast.Lambda) else []
+            found = False
+            stack = list(body)
+            while stack:
+                n = stack.pop()
+                if isinstance(n, (ast.FunctionDef, ast.AsyncFunctionDef,
+                                  ast.ClassDef, ast.Lambda)):
+                    continue
+                if isinstance(n, (ast.Yield, ast.YieldFrom)):
+                    found = True
+                    break
+                stack.extend(ast.iter_child_nodes(n))
+            cache[fi] = found
+        return cache[fi]
+
+    def is_lock(self, t):
+        return t[0] == 'attr' and 'lock' in t[2].lower()
+
     def apply(self, fn, args, kwargs, st, fi, node):
         """Call of the value fn."""
         k = fn[0]
+        if k == 'partial':
+            kw = dict(fn[3])
+            kw.update(kwargs)
+            return self.apply(fn[1], list(fn[2]) + list(args), kw, st, fi,
+                              node)
+        if k == 'attrgetter' and len(args) == 1:
+            res = [(st, [])]
+            for nm in fn[1]:
+                nx = []
+                for s2, acc in res:
+                    cur = [(s2, args[0])]
+                    for part in nm.split('.'):
+                        c2 = []
+                        for s3, v in cur:
+                            c2.extend(self.getattr(v, part, s3, fi, node))
+                        cur = c2
+                    nx.extend((s3, acc + [v]) for s3, v in cur)
+                res = nx
+            return [(s2, acc[0] if len(acc) == 1 else ('tuple', tuple(acc)))
+                    for s2, acc in res]
+        if k == 'itemgetter' and len(args) == 1:
+            vals = [self.index(args[0], const(i)) for i in fn[1]]
+            return [(st, vals[0] if len(vals) == 1 else ('tuple',
+                                                         tuple(vals)))]
+        if k == 'methodcaller' and len(args) == 1:
+            out = []
+            for s2, m in self.getattr(args[0], fn[1], st, fi, node):
+                out.extend(self.apply(m, list(fn[2]), dict(fn[3]), s2, fi,
+                                      node))
+            return out
+        if k == 'ntcls':
+            names = fn[2]
+            vals = list(args)
+            kw = dict(kwargs)
+            for nm in names[len(vals):]:
+                if nm not in kw:
+                    return self.opaque_call(fn, args, kwargs, st, fi, node,
+                                            [])
+                vals.append(kw.pop(nm))
+            if kw or len(vals) != len(names):
+                return self.opaque_call(fn, args, kwargs, st, fi, node, [])
+            return [(st, ('nt', names, tuple(vals)))]
+        if k == 'ext':
+            r = self.library_call(fn[1], fn, args, kwargs, st, fi, node)
+            if r is not None:
+                return r
+        if k == 'attr' and fn[2] in ('acquire', 'release') and \
+                self.is_lock(fn[1]) and not kwargs:
+            # lock.acquire(); try: ... finally: lock.release()  is
+            # `with lock:`
+            if fn[2] == 'acquire':
+                self.emit(st, Ev('enter', node, fi, st, ctx=fn[1]))
+                st.held.append(fn[1])
+                return [(st, TRUE)]
+            for i in range(len(st.held) - 1, -1, -1):
+                if struct(st.held[i]) == struct(fn[1]):
+                    del st.held[i]
+                    break
+            self.emit(st, Ev('exit', node, fi, st, ctx=fn[1]))
+            return [(st, NONE)]
+        if k == 'fn' and not isinstance(fn[1].node, ast.Lambda) and \
+                self._is_generator(fn[1]) and (
+                    self.want_inline(fn[1]) or fn[1].outer is not None):
+            # calling a generator function runs nothing yet
+            bound = fn[2]
+            impl = [bound] if bound is not None and not (
+                isinstance(bound, tuple) and bound[0] == 'closure') else []
+            return [(st, ('gen', fn[1], tuple(impl + list(args)),
+                          tuple(sorted(kwargs.items())), next(self.uid)))]
         if k == 'fn':
             target, bound = fn[1], fn[2]
             impl = []
@@ -2058,7 +2411,7 @@ class PathSum(object):
             elif oc[0] == 'return':
                 s.outcome = None
                 out.append((s, oc[1]))
-            elif oc[0] == 'raise':
+            elif oc[0] in ('raise', 'genbreak', 'genleave'):
                 out.append((s, BOT))
             else:
                 raise self.err('break/continue escaping %s'
@@ -2069,6 +2422,24 @@ class PathSum(object):
 
     # -- compound statements --------------------------------------------------
     def with_(self, n, st, fi):
+        ce = n.items[0].context_expr if len(n.items) == 1 else None
+        if isinstance(ce, ast.Call) and n.items[0].optional_vars is None:
+            probe = st.fork()
+            try:
+                ft = self.ev(ce.func, probe, fi)[0][1]
+            except AnalysisError:
+                ft = None
+            if ft == ('ext', 'contextlib.suppress') and ce.args and \
+                    not ce.keywords:
+                # with suppress(E): body  ==  try: body / except E: pass
+                typ = ce.args[0] if len(ce.args) == 1 else ast.Tuple(
+                    elts=list(ce.args), ctx=ast.Load())
+                t = ast.Try(body=n.body, handlers=[ast.ExceptHandler(
+                    type=typ, name=None, body=[ast.Pass()])], orelse=[],
+                    finalbody=[])
+                ast.copy_location(t, n)
+                ast.fix_missing_locations(t)
+                return self.try_(t, st, fi)
         states = [st]
         ctxs = []
         for item in n.items:
@@ -2217,6 +2588,11 @@ class PathSum(object):
                 out.append(s)
                 continue
             items = None
+            if is_for and it[0] == 'gen':
+                out.extend(self.iterate_generator(n, s, it, fi))
+                continue
+            if is_for and it[0] == 'nt':
+                it = ('tuple', it[2])
             if is_for:
                 if it[0] in ('tuple', 'list') and len(it[1]) <= self.unroll:
                     items = list(it[1])
@@ -2284,6 +2660,25 @@ class PathSum(object):
             for x in ast.walk(n.target):
                 if isinstance(x, ast.Name):
                     written.add(x.id)
+        # a loop of a generator that is being consumed runs the consumer's
+        # loop body at every yield: what that body writes (in the consumer's
+        # frame) is loop-carried too
+        outer_written = []
+        if any(isinstance(x, (ast.Yield, ast.YieldFrom))
+               for b in n.body for x in ast.walk(b)):
+            for h in s.yielders:
+                ws = set()
+                for x in (y for b in h['node'].body for y in ast.walk(b)):
+                    if isinstance(x, ast.Name) and isinstance(
+                            x.ctx, ast.Store):
+                        ws.add(x.id)
+                    elif isinstance(x, ast.Attribute) and isinstance(
+                            x.ctx, ast.Store):
+                        wattrs.add(x.attr)
+                for x in ast.walk(h['node'].target):
+                    if isinstance(x, ast.Name):
+                        ws.add(x.id)
+                outer_written.append((h['frame'], ws))
         base_nconds = len(s.conds)
         ctx = it if is_for else sym('<while>')
 
@@ -2298,11 +2693,32 @@ class PathSum(object):
             for w in sorted(written):
                 if w in body.env and w not in keep:
                     phis[w] = body.env[w] = ('phi', w, next(self.uid))
+            for fidx, ws in outer_written:
+                for w in sorted(ws):
+                    if w in body.frames[fidx] and w not in keep:
+                        phis[w] = body.frames[fidx][w] = (
+                            'phi', w, next(self.uid))
             for k in list(body.heap):
                 if k[1] in wattrs:
                     del body.heap[k]
             starts = [body]
-            if is_for:
+            if is_for and it[0] == 'op' and it[1] == 'iter' and \
+                    len(it[2]) == 2:
+                # for x in iter(f, sentinel): each round calls f(); the
+                # loop ends when the result equals the sentinel
+                starts = []
+                for b2, v in self.apply(it[2][0], [], {}, body, fi, n):
+                    if b2.outcome is not None:
+                        starts.append(b2)
+                        continue
+                    for b3, eq in self.split(op('==', v, it[2][1]), b2, n):
+                        if eq:
+                            b3.outcome = ('break', 'cond')
+                            starts.append(b3)
+                        else:
+                            starts.extend(self.assign(n.target, v, b3, fi,
+                                                      n))
+            elif is_for:
                 el = ('elem', it, next(self.uid))
                 starts = self.assign(n.target, el, body, fi, n)
             else:
@@ -2353,18 +2769,27 @@ class PathSum(object):
             p.conds = b.conds[base_nconds:]
             p.env = b.frames[-1]
             paths.append(p)
-            if b.outcome is not None and b.outcome[0] in ('return', 'raise'):
+            if b.outcome is not None and b.outcome[0] in (
+                    'return', 'raise', 'genbreak', 'genleave'):
                 exits.append(b)
             elif b.outcome is not None and b.outcome[0] == 'break' and \
                     len(b.outcome) == 1:
                 breaks.append(b)
-        loop_ev = Ev('loop', n, fi, s, ctx=ctx, paths=paths,
-                     pre={w: s.env.get(w) for w in written if w in s.env},
+        pre = {w: s.env.get(w) for w in written if w in s.env}
+        for fidx, ws in outer_written:
+            for w in ws:
+                if w in s.frames[fidx]:
+                    pre[w] = s.frames[fidx][w]
+        loop_ev = Ev('loop', n, fi, s, ctx=ctx, paths=paths, pre=pre,
                      phis=dict(phis))
         s.events.append(loop_ev)
         for w in sorted(written):
             if w not in keep:
                 s.env[w] = ('phi', w, next(self.uid))
+        for fidx, ws in outer_written:
+            for w in sorted(ws):
+                if w in s.frames[fidx] and w not in keep:
+                    s.frames[fidx][w] = ('phi', w, next(self.uid))
         for k in list(s.heap):
             if k[1] in wattrs:
                 del s.heap[k]
